@@ -142,3 +142,44 @@ def run_c19(tier, seed):
             "thorough tier: the round-trip law is additionally swept over all 2^31 durations and 2^32 timestamps on the real code (no oracle needed for that law)"])
     finally:
         shutil.rmtree(wd, ignore_errors=True)
+
+
+# ------------------------------------------------------------------------------------------ C14 / C15
+CODEC_CFG = 'SPECIFICATION Spec\nCONSTANTS\n  Export = "codec"\nINVARIANTS FramingLaws ConcatLaw HostileLaws BufBounded ExportFraming ExportHostile CodecCount\nPROPERTIES Terminates\n'
+
+
+def run_codec(prop, tier, seed):
+    v = Verdict(prop, tier, seed)
+    wd = scratch("wv-%s-" % prop)
+    try:
+        binp = build_harness(wd)
+        res = run_tlc(wd, "WhisperCodec", CODEC_CFG, "codec", 2, 3000)
+        require_clean_mc(res, "WhisperCodec")
+        outj = os.path.join(wd, "out.json")
+        if prop == "C14":
+            p = subprocess.run([binp, "codec", res["path"], outj], stdout=subprocess.PIPE, stderr=subprocess.STDOUT, text=True)
+            kind = "codec-case"
+        else:
+            nmut = {"quick": 600, "thorough": 20000}[tier]
+            p = subprocess.run([binp, "hostile", res["path"], str(seed), str(nmut), outj], stdout=subprocess.PIPE, stderr=subprocess.STDOUT, text=True)
+            kind = "hostile-case"
+        if p.returncode != 0:
+            raise Broken("%s harness failed: %s" % (prop, p.stdout[-2000:]))
+        r = json.load(open(outj))
+        for viol in r["violations"]:
+            v.violation("%s: %s %s" % (viol["what"], viol["detail"][:500], json.dumps(viol["line"])[:300]),
+                        {"kind": kind, "case": viol["line"], "seed": seed}, viol.get("signature") or None)
+        if prop == "C14":
+            cov = {"states": res["distinct"], "transitions": res["generated"], "traces_validated_against_impl": r["evaluations"],
+                   "samples": r["samples"] or ["none"], "exhaustive": True, "frame_cases_x_value_sets": r["frame_cases"], "concatenation_pairs": r["pairs"],
+                   "explanation": "TLC checks the framing laws for every shape x prefix length x trailing length and the termination of the retry loop (temporal property under fairness); every exported case is instantiated with 16 adversarial value sets (NaN payloads, signed zero, infinities, subnormals, 17-digit values; times 0, 1, 2^31-1, 2^31, 2^32-1) and run through AppendTo/TakeFrom"}
+            return v.finish("model_checking", cov, ["values are opaque 8-byte words in the specification; coverage of float64 bit patterns is by instantiation of a finite token set",
+                                                     "message shapes: headers of 1-3 archives, series of 0-3 values, point lists of 0-3 points, point, value, timestamp, duration"])
+        cov = {"evaluations": r["evaluations"], "distinct_nontrivial": r["grid_cases"] + r["mutations"],
+               "rule": "field-class grid of WhisperCodec.tla (decoder x count class x step class x range class x available-bytes class; 2400 cases, each distinct by construction) instantiated as bytes, the header cases also as files given to Open, plus seeded mutations of valid files (truncation, header bit flips, extreme header fields, body cut, random bytes, noise) each run through Open + every read/write entry point; a case is non-trivial when its bytes differ from a valid encoding",
+               "samples": r["samples"] or ["none"], "grid_cases": r["grid_cases"], "mutations": r["mutations"], "child_crashes": r["child_crashes"],
+               "states": res["distinct"], "transitions": res["generated"]}
+        return v.finish("exploration", cov, ["the specification supplies the case structure, the allowed outcome set per class and the allocation bound (8 x input + 64 KiB per call); it cannot enumerate byte strings",
+                                             "every case runs in a child process with RLIMIT_AS = 3 GiB; allocation is measured as the TotalAlloc delta of the call"])
+    finally:
+        shutil.rmtree(wd, ignore_errors=True)
